@@ -1713,7 +1713,7 @@ impl Engine for HttpEngine {
     })
   }
   fn rule(&self) -> String {
-    "seeded request histories (/init, valid and invalid /add NDJSON, /bulk, /delete, /commit, /refresh, /compact, /search, /stats, /inspect, unknown paths/methods, wrong content types, searches with extreme numeric parameters) handed to the real axum Router as a tower Service on a current-thread tokio runtime with the clock paused; transport faults: body split at arbitrary byte boundaries, client stall (simulated clock runs to the 30 s TimeoutLayer), connection reset mid-body, bodies over the limit with and without Content-Length; a third of the cases end in a block of 2-6 concurrent requests driven by a seeded executor (request futures polled only after their waker fired; blocking tasks parked at spawn, at outermost core lock boundaries and on a contended writer lock, one thread runs at a time; a client may go away mid-request); a fifth of the sequential cases inject storage faults under the service (one primitive of the index directory fails with an I/O error or panics while a request is served); the engine runs in a child process so that a request that kills the process is reported; oracle: queue model (set of allowed states after un-acknowledged outcomes; linearizability search for concurrent blocks) + response-shape/status rules; distinct = distinct <request kind:status> 3-grams plus distinct concurrent schedules".into()
+    "seeded request histories (/init, valid and invalid /add NDJSON, /bulk, /delete, /commit, /refresh, /compact, /search, /stats, /inspect, unknown paths/methods, wrong content types, searches with extreme numeric parameters, NDJSON uploads of a thousand and more documents with an invalid line late in the body, a document of more than 1 MiB) handed to the real axum Router as a tower Service on a current-thread tokio runtime with the clock paused; transport faults: body split at arbitrary byte boundaries, client stall (simulated clock runs to the 30 s TimeoutLayer), connection reset mid-body, bodies over the limit with and without Content-Length; a third of the cases end in a block of 2-6 concurrent requests driven by a seeded executor (request futures polled only after their waker fired; blocking tasks parked at spawn, at outermost core lock boundaries and on a contended writer lock, one thread runs at a time; a client may go away mid-request); a fifth of the sequential cases inject storage faults under the service (one primitive of the index directory fails with an I/O error or panics while a request is served); the engine runs in a child process so that a request that kills the process is reported; oracle: queue model (set of allowed states after un-acknowledged outcomes; linearizability search for concurrent blocks) + response-shape/status rules; distinct = distinct <request kind:status> 3-grams plus distinct concurrent schedules".into()
   }
   fn assumptions(&self) -> Vec<String> {
     vec![
@@ -1768,6 +1768,7 @@ impl Engine for HttpEngine {
         "probe.blocking_tasks_overlapped",
         "probe.blocking_task_switches",
         "probe.alternatives_resolved_by_observation",
+        "probe.large_uploads",
         "op.add",
         "op.bulk",
         "op.delete",
